@@ -156,8 +156,11 @@ def run(pid, harness_path, obligations, tier, ev, jobs=None):
       cmd = [os.path.join(common.VERIF, "vcheck"), "replay", pid, p]
       rp = subprocess.run(cmd, capture_output=True, text=True, timeout=300)
       if rp.returncode == 1:
-        violations.append({"sig": {"pid": pid, "obligation": f, "call": call}, "msg": "%s: %s :: %s" % (f, main.get("message"), rp.stdout[-300:]),
-                           "witness": w})
+        sig = {"pid": pid, "obligation": f, "call": call}
+        mt = re.search(r"TAG=(\S+)", rp.stdout)
+        if mt:
+          sig["tag"] = mt.group(1)
+        violations.append({"sig": sig, "msg": "%s: %s :: %s" % (f, main.get("message"), rp.stdout[-300:]), "witness": w})
       else:
         harness.append("obligation %s: counterexample %s did not reproduce natively: %s" % (f, call, (rp.stdout + rp.stderr)[-300:]))
         os.remove(p)
@@ -181,7 +184,18 @@ def replay_cmd(pid, path):
   hp = os.path.join(common.VERIF, w["harness"])
   bad, detail = native_call(hp, w["call"])
   if bad:
-    print("REPRODUCED property=%s %s -> %s" % (pid, w["call"], detail))
+    tag = ""
+    mod = sys.modules.get(os.path.basename(hp)[:-3])
+    if mod is not None and hasattr(mod, "classify"):
+      try:
+        tree = ast.parse(w["call"], mode="eval").body
+        ns = dict(vars(mod)); ns.setdefault("nan", float("nan")); ns.setdefault("inf", float("inf"))
+        args = [eval(compile(ast.Expression(a), "<arg>", "eval"), ns) for a in tree.args]
+        kwargs = {k.arg: eval(compile(ast.Expression(k.value), "<arg>", "eval"), ns) for k in tree.keywords}
+        tag = " TAG=%s" % mod.classify(tree.func.id, args, kwargs)
+      except Exception as e:
+        tag = " TAG=unclassified"
+    print("REPRODUCED property=%s %s -> %s%s" % (pid, w["call"], detail, tag))
     return 1
   print("not reproduced property=%s %s -> %s" % (pid, w["call"], detail))
   return 0
